@@ -14,10 +14,11 @@ def project(k, idx, lid_of):
         L = []
         lids = []
         lf = k.labelling_function()
-        for s in sorted(states, key=lambda x: idx[x]):
-            if s not in lf:
-                continue             # possible after the inherited mutators: a state without a label entry
-            lab = k.labels(s)
+        sset = set(states)
+        for s in sorted(lf, key=lambda x: idx[x]):
+            # every key of the labelling function (after the inherited mutators a state may have no entry; after
+            # replace_labelling_function there may be keys that are not states)
+            lab = k.labels(s) if s in sset else lf[s]
             L.append([idx[s], sorted(str(a) for a in lab)])
             lids.append(lid_of(lab))
         return {'S': S, 'S0': sorted(idx[s] for s in k.S0), 'R': sorted([idx[a], idx[b]] for a, b in k.transitions()),
@@ -57,6 +58,7 @@ def run_behaviour(b):
                 if b.get('shuf') is not None:
                     for x in (S, S0, R, items):
                         rng.shuffle(x)
+                    S, S0, R = pymc.as_container(S, rng), pymc.as_container(S0, rng), pymc.as_container(R, rng, pairs=True)
                 L = dict(items)
                 if b.get('args', 'full') == 'none-if-empty':
                     k = pymc.Kripke(S=S or None, S0=S0 or None, R=R or None, L=L or None)
@@ -73,7 +75,7 @@ def run_behaviour(b):
                     pool[c['new']] = k.clone()
                     out = {'ret': 'none'}
                 elif op == 'sub':
-                    pool[c['new']] = k.get_substructure(set(name(v) for v in c['X']))
+                    pool[c['new']] = k.get_substructure((frozenset if b.get('shuf') is not None and rng.random() < 0.3 else set)(name(v) for v in c['X']))   # documented type: set
                     out = {'ret': 'none'}
                 elif op == 'add_node':
                     k.add_node(name(c['v']))
@@ -84,6 +86,10 @@ def run_behaviour(b):
                 elif op == 'label_add':
                     k.labels(name(c['v'])).add(c['a'])
                     out = {'ret': 'none'}
+                elif op == 'relabel':
+                    newL = {name(s_): set(v) for s_, v in c['Lkv']}
+                    oldL = k.replace_labelling_function(newL)
+                    out = {'ret': sorted([idx[s_], sorted(str(a) for a in v)] for s_, v in oldL.items())}
                 elif op == 'labels':
                     out = {'ret': sorted(str(a) for a in k.labels(name(c['v'])))}
                 elif op == 'next':
